@@ -1349,6 +1349,16 @@ def rule_copy(ctx):
                         lambda i: True, 20)
 
 
-RULES = [rule_keys, rule_deps, rule_lists, rule_closure, rule_reorder, rule_root, rule_cores, rule_corekey,
+def rule_merge(ctx):
+    """Shared with C18-MERGE (seed C01_4): annealing installs the legs, cost and size computed by the move
+    evaluator on the new node (`contract_nodes_pair(legs=…, cost=…, size=…)`); they are the tree's own figures
+    only if the evaluator merges the two leg tables by the tree's survival rule."""
+    from .c18 import rule_merge as src
+
+    return C.reuse_rule(ctx, src, "C18-MERGE", "C02-MERGE",
+                        "figures installed by annealing moves follow the tree's survival rule", lambda i: True, 3)
+
+
+RULES = [rule_merge, rule_keys, rule_deps, rule_lists, rule_closure, rule_reorder, rule_root, rule_cores, rule_corekey,
          rule_topo, rule_multpair, rule_rebuild, rule_slicearr, rule_slicesum, rule_node,
          rule_presurv, rule_pure, rule_copy, rule_preproc]
